@@ -24,6 +24,7 @@ def suites : List (String × (String → String → CaseResult)) :=
   [("format03", FormatSuite.runCase .c03)] ++
   [("macro", MacroSuite.runCase)] ++
   [("saveload", SaveSuite.runCase)] ++
+  [("session", SessionSuite.runCase)] ++
   []
 
 structure DAcc where
